@@ -218,7 +218,7 @@ func (o *oracleRun) step(line, res string) string {
 	h := o.hs[hi]
 	e := errOf(res)
 	switch t[0] {
-	case "write", "writestring", "writeat":
+	case "write", "writestring", "writeat", "readfrom":
 		b := corr.UnHex(t[2])
 		n64, _ := field(res, "n")
 		n := atoi(n64)
